@@ -17,6 +17,9 @@ VECTORS = {
     # federation only: the plugin generates federation.requires.go with one populator per entity that
     # has @requires fields; the harness fills it in (user code) after generation
     "x1": {"federation_options": ["explicit_requires"], "worker_limit": 2},
+    # federation v2 only: @requires fields become resolvers that are handed the required fields of their
+    # representation (needs call_argument_directives_with_null)
+    "x2": {"federation_options": ["computed_requires"], "call_argument_directives_with_null": True},
     "w1": {"worker_limit": 1},
     "w2": {"worker_limit": 2},
     "w8": {"worker_limit": 8},
